@@ -39,7 +39,7 @@ CHECKS = {
         rule="one case = (receiver, message, segmentation plan or cut offset) or (sender, stream) under forced partial "
              "writes; every 2-split, all 3-splits of short messages (sampled for long ones), byte-by-byte, random "
              "segmentations, every cut offset followed by end-of-stream; distinct by (receiver, message, plan)",
-        units=[U("framing", "hv", "c08", shards=(8, 16)),
+        units=[U("framing", "hv", "c08", shards=(8, 16)), U("daemon-truncation", "hd", "c08", shards=(2, 4)),
                U("asan-framing", "hv", "c08", build="asan", tiers=("thorough",), shards=(1, 8),
                  env={"ASAN_OPTIONS": "halt_on_error=1:abort_on_error=0:detect_leaks=1:exitcode=97"})],
     ),
